@@ -47,6 +47,8 @@ func (ir *IntrospectionResolver) resolveSchema(schema *ast.Schema, selectionSet 
 
 	for _, f := range common.SelectionSetToFields(selectionSet, nil) {
 		switch f.Name {
+		case "__typename":
+			result[f.Alias] = "__Schema"
 		case "types":
 			types := []map[string]interface{}{}
 			for _, t := range schema.Types {
@@ -86,6 +88,8 @@ func (ir *IntrospectionResolver) resolveType(schema *ast.Schema, typ *ast.Type, 
 	if typ.NonNull {
 		for _, f := range common.SelectionSetToFields(selectionSet, nil) {
 			switch f.Name {
+			case "__typename":
+				result[f.Alias] = "__Type"
 			case "kind":
 				result[f.Alias] = "NON_NULL"
 			case "ofType":
@@ -104,6 +108,8 @@ func (ir *IntrospectionResolver) resolveType(schema *ast.Schema, typ *ast.Type, 
 	if typ.Elem != nil {
 		for _, f := range common.SelectionSetToFields(selectionSet, nil) {
 			switch f.Name {
+			case "__typename":
+				result[f.Alias] = "__Type"
 			case "kind":
 				result[f.Alias] = "LIST"
 			case "ofType":
@@ -122,6 +128,8 @@ func (ir *IntrospectionResolver) resolveType(schema *ast.Schema, typ *ast.Type, 
 
 	for _, f := range common.SelectionSetToFields(selectionSet, nil) {
 		switch f.Name {
+		case "__typename":
+			result[f.Alias] = "__Type"
 		case "kind":
 			result[f.Alias] = namedType.Kind
 		case "name":
@@ -243,6 +251,8 @@ func (ir *IntrospectionResolver) resolveField(schema *ast.Schema, field *ast.Fie
 
 	for _, f := range common.SelectionSetToFields(selectionSet, nil) {
 		switch f.Name {
+		case "__typename":
+			result[f.Alias] = "__Field"
 		case "name":
 			result[f.Alias] = field.Name
 		case "description":
@@ -270,6 +280,8 @@ func (ir *IntrospectionResolver) resolveDirective(schema *ast.Schema, directive 
 
 	for _, f := range common.SelectionSetToFields(selectionSet, nil) {
 		switch f.Name {
+		case "__typename":
+			result[f.Alias] = "__Directive"
 		case "name":
 			result[f.Alias] = directive.Name
 		case "description":
@@ -309,6 +321,8 @@ func (ir *IntrospectionResolver) resolveInputValue(schema *ast.Schema, arg *ast.
 
 	for _, f := range common.SelectionSetToFields(selectionSet, nil) {
 		switch f.Name {
+		case "__typename":
+			result[f.Alias] = "__InputValue"
 		case "name":
 			result[f.Alias] = arg.Name
 		case "description":
@@ -334,6 +348,8 @@ func resolveEnumValue(enum *ast.EnumValueDefinition, selectionSet ast.SelectionS
 
 	for _, f := range common.SelectionSetToFields(selectionSet, nil) {
 		switch f.Name {
+		case "__typename":
+			result[f.Alias] = "__EnumValue"
 		case "name":
 			result[f.Alias] = enum.Name
 		case "description":
